@@ -4,6 +4,7 @@ with the real name_mapping(...) on a real model class, its creation verdict comp
 object of the program is run through the generated loader / dumper in the three debug modes."""
 from __future__ import annotations
 
+import copy
 import dataclasses
 import json
 import random
@@ -286,6 +287,39 @@ def program_features(case: dict) -> dict:
             "n_overlays": len(case["ovs"]), "skipped": sum(1 for p in ps if not p)}
 
 
+HEAP = {"on": False}     # set by c20 before the workers fork: record heap observations of successful loads / dumps
+
+
+def _heap_obs(out: dict, func, make_arg, asis_of, first, label: str, case: dict) -> None:
+    """property C20: call func a second time on the same argument and record identities (judged by spec/Trace_Heap.tla)"""
+    from .props.c20 import containers, retort_reachable, snapshot
+    arg = make_arg()
+    before = snapshot(arg)
+    r1 = func(arg)
+    r2 = func(arg)
+    after = snapshot(arg)
+    arg_c, c1, c2 = containers(arg), containers(r1), containers(r2)
+    asis_c: dict = {}
+    for o in asis_of(arg, r1) + asis_of(arg, r2):
+        containers(o, asis_c)
+    asis_c = {i: o for i, o in asis_c.items() if i in arg_c}
+    rr = retort_reachable(func)
+    num: dict = {}
+
+    def n(ids):
+        return [num.setdefault(i, len(num) + 1) for i in ids]
+    try:
+        equal = (r1 == r2) if type(r1).__eq__ is not object.__eq__ else (vars(r1) == vars(r2))
+    except Exception:  # noqa: BLE001
+        equal = repr(r1) == repr(r2)
+    obs = {"arg": n(arg_c), "retort": n(rr), "asis": n(asis_c), "res1": n(c1), "res2": n(c2), "arg_same": before == after,
+           "repeat_equal": bool(equal)}
+    key = json.dumps(obs, sort_keys=True)
+    slot = out["heap"].setdefault(key, {"obs": obs, "n": 0, "label": label, "case": {"shape": case["shape"], "ovs": case["ovs"]},
+                                        "detail": f"arg={arg!r} res1={r1!r}"[:400]})
+    slot["n"] += 1
+
+
 def run_program(case: dict, seed: int, names: Names, out: dict, kind_factory=None) -> None:
     from adaptix import DebugTrail, ProviderNotFoundError, Retort
     from adaptix.load_error import LoadError
@@ -375,6 +409,15 @@ def run_program(case: dict, seed: int, names: Names, out: dict, kind_factory=Non
                             add("C03", "extra_delivery", f"{dtname}: {xin} received {got!r}, unknown data is {exp!r}", **pd)
                     if not kwargs_prog and ctor_log != ["post_init"]:
                         add("C08", "constructor_not_called_once", f"{dtname}: constructor side effects {ctor_log}", **pd)
+                    if HEAP["on"]:
+                        xtarget = case["sch"]["extra_in"]["f"] if xin == "target" else 0
+                        any_fields = [names.field(f["id"]) for i, f in enumerate(shape, start=1) if f["ty"] == "any" and i != xtarget]
+                        _heap_obs(out, loader, lambda: render_data(probe["d"], shape, names),
+                                  lambda a, r: [getattr(r, n, None) for n in any_fields]
+                                  + ([v for v in (getattr(r, names.field(shape[xtarget - 1]["id"]), None) or {}).values()] if xtarget else [])
+                                  + (list((getattr(r, "kwargs", None) or {}).values()) if xin == "kwargs" else [])
+                                  + (list((getattr(r, "_sat", None) or {}).values()) if xin == "saturate" else []),
+                                  obj, f"load {dtname}", case)
                 else:
                     if res[0] == "ok":
                         add("C03", "accepts_input_violating_layout", f"{dtname}: {datum!r} loaded to {res[1]!r}; documented errors {mo['errs']}", **pd)
@@ -434,6 +477,14 @@ def run_program(case: dict, seed: int, names: Names, out: dict, kind_factory=Non
                 if got != want or _shape_of(got) != _shape_of(want):
                     add("C03", "dumped_layout_differs", f"{dtname}: dump({obj!r}) = {got!r}; documented {want!r}",
                         {"omit": any(ov["omit"]["o"] for ov in case["ovs"])}, dt=dtname)
+                elif HEAP["on"]:
+                    xo = case["sch"]["extra_out"]
+                    xtarget = xo["f"] if xo["p"] == "target" else 0
+                    any_fields = [names.field(f["id"]) for i, f in enumerate(shape, start=1) if f["ty"] == "any" and i != xtarget]
+                    _heap_obs(out, dumper, lambda: model_out(**{k: copy.deepcopy(v) for k, v in vals.items()}),
+                              lambda a, r: [getattr(a, n, None) for n in any_fields]
+                              + (list((getattr(a, names.field(shape[xtarget - 1]["id"]), None) or {}).values()) if xtarget else []),
+                              got, f"dump {dtname}", case)
 
 
 def run_twin(c1: dict, c2: dict, seed: int, names: Names, out: dict) -> None:
@@ -532,7 +583,7 @@ def _min_per_sig(fs: list) -> list:
 
 
 def _worker(items) -> dict:
-    out: dict = {"programs": 0, "runs": 0, "machinery": [], "samples": [], **{c: [] for c in CATS}}
+    out: dict = {"programs": 0, "runs": 0, "machinery": [], "samples": [], "heap": {}, **{c: [] for c in CATS}}
     out["twins"] = 0
     for seed, path, spans, tables in items:
         prev = None
@@ -565,7 +616,7 @@ def _worker(items) -> dict:
 
 
 def run_slices(ctx: Ctx, slices, max_overlays: dict, tables: Optional[list] = None, twins: bool = True) -> dict:
-    total: dict = {"programs": 0, "runs": 0, "twins": 0, **{c: [] for c in CATS}}
+    total: dict = {"programs": 0, "runs": 0, "twins": 0, "heap": {}, **{c: [] for c in CATS}}
     for sl in slices:
         cfg = make_cfg(constants=dict(Slice=f'"{sl}"', MaxOverlays=max_overlays.get(sl, 1), EmitCases=True), invariants=INVS)
         res = run_tlc(ctx.scratch, "MC_Layout", cfg, tag=f"MC_Layout_{sl}", timeout_s=3000, heap_gb=12)
@@ -587,6 +638,11 @@ def run_slices(ctx: Ctx, slices, max_overlays: dict, tables: Optional[list] = No
             total["runs"] += o["runs"]
             total["twins"] += o["twins"]
             machinery += o["machinery"]
+            for k, slot in o["heap"].items():
+                if k in total["heap"]:
+                    total["heap"][k]["n"] += slot["n"]
+                else:
+                    total["heap"][k] = slot
             for c in CATS:
                 total[c] += o[c]
             if len(ctx.samples) < 4:
